@@ -223,18 +223,21 @@ proof {
                 'proof { lemma_position_fits(self.line_index, self.text.spec_bytes(), offset.raw as int, line_col.0 as int); }')]),
     'LuaDocument::to_rowan_range': doc_fn(
         'to_rowan_range', ret='r',
-        # weakest precondition we state for `TextRange::new(start, end)` (its assert!(start <= end)): when both
-        # lines exist, the LSP range is ordered
-        requires=DOC_OK + """,
-        (range.start.line < self.line_index.line_offsets@.len() && range.end.line < self.line_index.line_offsets@.len()) ==> pos_le(range.start, range.end)""",
-        ensures="""r is None <==> (range.start.line >= self.line_index.line_offsets@.len() || range.end.line >= self.line_index.line_offsets@.len()) /*@C22.doc.to_rowan_range.none-iff-line-missing*/,
+        # no precondition on the client range any more: `TextRange::new(start, end)` (its assert!(start <= end)) is guarded by the
+        # code itself since fix 659629c (a reversed client range converts to nothing); the obligation start <= end is discharged here
+        requires=DOC_OK,
+        ensures="""(range.start.line >= self.line_index.line_offsets@.len() || range.end.line >= self.line_index.line_offsets@.len()) ==> r is None /*@C22.doc.to_rowan_range.none-iff-line-missing*/,
+        // an ordered range on existing lines always converts; only a missing line or a reversed range gives nothing
+        (range.start.line < self.line_index.line_offsets@.len() && range.end.line < self.line_index.line_offsets@.len() && pos_le(range.start, range.end)) ==> r is Some /*@C22.doc.to_rowan_range.ordered-range-converts*/,
         r matches Some(rg) ==> rg.wf() && rg.end.raw <= self.text.spec_bytes().len() /*@C25.offset-in-document*/,
         r matches Some(rg) ==> offset_ok(self.line_index, self.text.spec_bytes(), range.start.line as int, range.start.character as int, rg.start.raw as int)
             && offset_ok(self.line_index, self.text.spec_bytes(), range.end.line as int, range.end.character as int, rg.end.raw as int) /*@C22.doc.to_rowan_range.clamped*/""",
-        proof=[(r'Some\(TextRange::new\(', 'before', """
+        proof=[(r'let end = self\.get_offset\([^;]*;', 'after', """
 proof {
-    lemma_offsets_ordered(self.line_index, self.text.spec_bytes(), range.start.line as int, range.start.character as int, start.raw as int,
-        range.end.line as int, range.end.character as int, end.raw as int);
+    if pos_le(range.start, range.end) {
+        lemma_offsets_ordered(self.line_index, self.text.spec_bytes(), range.start.line as int, range.start.character as int, start.raw as int,
+            range.end.line as int, range.end.character as int, end.raw as int);
+    }
 }""")]),
 }
 
@@ -360,6 +363,13 @@ invariant
         {'name': 'doc-rowan-range-swapped', 'item': 'LuaDocument::to_rowan_range',
          'pattern': r'TextRange::new\(start, end\)', 'repl': 'TextRange::new(end, start)',
          'expect': r'to_rowan_range:precondition-not-satisfied\{Some\(TextRange::new'},
+        # the repaired defect (659629c): without the guard a reversed client range reaches the assertion of TextRange::new
+        {'name': 'doc-rowan-range-reversed-guard-removed', 'item': 'LuaDocument::to_rowan_range',
+         'pattern': r'if start > end \{\s*return None;\s*\}', 'repl': '',
+         'expect': r'to_rowan_range:precondition-not-satisfied\{Some\(TextRange::new'},
+        {'name': 'doc-rowan-range-guard-rejects-ordered', 'item': 'LuaDocument::to_rowan_range',
+         'pattern': r'if start > end \{', 'repl': 'if start >= end {',
+         'expect': r'C22\.doc\.to_rowan_range\.ordered-range-converts'},
         {'name': 'doc-rowan-range-end-col-from-start', 'item': 'LuaDocument::to_rowan_range',
          'pattern': r'range\.end\.character as usize', 'repl': 'range.start.character as usize',
          'expect': r'C22\.doc\.to_rowan_range\.clamped'},
